@@ -16,6 +16,7 @@ func init() {
 
 func runC17(c *Ctx) {
 	L := c.L
+	c.checkNoLibraryGlobalWrites("library-global-state")
 	if c.Thorough() {
 		// thorough tier: every package of the module (frequency and weight tables elsewhere)
 		c.checkNormaliserSums("normaliser-sum")
